@@ -82,6 +82,12 @@ func (ins *inserter) insertStruct(typeID uint64, s capnp.Struct, val reflect.Val
 				return err
 			}
 		case schema.Field_Which_group:
+			if vf.Kind() == reflect.Ptr && vf.IsNil() {
+				// A group held by pointer that is nil has no fields to
+				// insert: they keep their defaults (Extract allocates
+				// such groups).
+				continue
+			}
 			if err := ins.insertStruct(f.Group().TypeId(), s, vf); err != nil {
 				return err
 			}
